@@ -406,3 +406,66 @@ Definition e_close (v : uval) : uval := vcresult (close true true true (getcstat
 (* observed: [returns; seconds; tasks left; writer closed] *)
 Definition e_P12 (v : uval) : uval :=
   vbool (P12 (mkCR (getbool (arg 0 v)) (getN (arg 1 v)) (getnat (arg 2 v)) (getbool (arg 3 v)))).
+
+(* ---- C05 parameter blocks / C07 ---- *)
+From PV Require Import Model.ParamBlocks Model.Handlers Spec.C05p Spec.C07.
+From Coq Require Import String.
+Definition getpvals (v : uval) : pvals := (getN (arg 0 v), getN (arg 1 v), getN (arg 2 v)).
+Definition vpvals (p : pvals) : uval := let '(a, b, c) := p in VL [vN a; vN b; vN c].
+Definition getslot (v : uval) : option pvals := getopt getpvals v.
+Definition vindexed (l : list (N * pvals)) : uval := vlist (fun q => VL [vN (fst q); vpvals (snd q)]) l.
+Definition getindexed (v : uval) : list (N * pvals) := map (fun q => (getN (arg 0 q), getpvals (arg 1 q))) (getL v).
+Definition vblocks (l : list (N * list (N * pvals))) : uval := vlist (fun q => VL [vN (fst q); vindexed (snd q)]) l.
+(* encoders: [b0; start; slots] *)
+Definition e_enc_ecomax_params (v : uval) : uval :=
+  vbytes (enc_ecomax_params (getN (arg 0 v)) (getN (arg 1 v)) (map getslot (getL (arg 2 v)))).
+Definition e_decode_ecomax_params (v : uval) : uval := vopt vindexed (decode_ecomax_params (getbytes v)).
+(* [b0; start; count; blocks] *)
+Definition e_enc_mixer_params (v : uval) : uval :=
+  vbytes (enc_mixer_params (getN (arg 0 v)) (getN (arg 1 v)) (getnat (arg 2 v)) (map (fun b => map getslot (getL b)) (getL (arg 3 v)))).
+Definition e_decode_mixer_params (v : uval) : uval := vopt vblocks (decode_mixer_params (getbytes v)).
+(* [b0; per; profile; blocks] *)
+Definition e_enc_thermostat_params (v : uval) : uval :=
+  vbytes (enc_thermostat_params (getN (arg 0 v)) (getnat (arg 1 v)) (getslot (arg 2 v)) (map (fun b => map getslot (getL b)) (getL (arg 3 v)))).
+(* [thermostats; bytes] -> [] raises | [[]] none | [[profile; blocks]] *)
+Definition e_decode_thermostat_params (v : uval) : uval :=
+  vopt (vopt (fun r => VL [vopt vpvals (fst r); vblocks (snd r)])) (decode_thermostat_params (getN (arg 0 v)) (getbytes (arg 1 v))).
+(* [b0; start; schedules([index; switch; param slot; week])] *)
+Definition getsched (v : uval) : sched_val :=
+  mkSched (getN (arg 0 v)) (getN (arg 1 v)) (getslot (arg 2 v)) (map getbools (getL (arg 3 v))).
+Definition e_enc_schedules (v : uval) : uval := vbytes (enc_schedules (getN (arg 0 v)) (getN (arg 1 v)) (map getsched (getL (arg 2 v)))).
+Definition e_decode_schedules (v : uval) : uval :=
+  vopt (fun r => VL [vlist (fun q => VL [vN (fst q); vlist vbools (snd q)]) (fst r); vindexed (snd r)]) (decode_schedules (getbytes v)).
+
+(* device handlers: ops [0; params] ecoMAX, [1; mixer; params], [2; thermostat; params];
+   result per named parameter: [ctx tag; sub index; position of its name in the table; stored index; offset; size; request payload for its value] *)
+Fixpoint name_pos (name : string) (t : list pdesc) (i : N) : N :=
+  match t with [] => 999 | d :: r => if String.eqb (pd_name d) name then i else name_pos name r (i + 1) end.
+Definition ctx_table (product : N) (c : pctx) : list pdesc :=
+  match c with CEcomax => ecomax_table product | CMixer _ => mixer_table product | CThermostat _ _ => thermostat_params
+             | CControl => ecomax_control_param | CProfile => thermostat_profile_param end.
+Definition vparam (product : N) (np : string * param) : uval :=
+  let '(name, p) := np in
+  let '(v, _, _) := p_vals p in
+  let '(tag, sub, off) := match p_ctx p with CEcomax => (0, 0, 0) | CMixer m => (1, m, 0) | CThermostat t o => (2, t, o)
+                                           | CControl => (3, 0, 0) | CProfile => (4, 0, 0) end%N in
+  VL [vN tag; vN sub; vN (name_pos name (ctx_table product (p_ctx p)) 0); vN (p_index p); vN off; vN (p_size p);
+      vopt vbytes (payload_of (request_of p v))].
+Definition e_handlers (v : uval) : uval :=
+  let product := getN (arg 0 v) in
+  let step (acc : pdata * list (N * pdata) * list (N * pdata)) (op : uval) :=
+    let '(eco, mixers, therms) := acc in
+    match getN (arg 0 op) with
+    | 0%N => (handle_ecomax product eco (getindexed (arg 1 op)), mixers, therms)
+    | 1%N =>
+      let m := getN (arg 1 op) in
+      let cur := match find (fun q => N.eqb (fst q) m) mixers with Some q => snd q | None => [] end in
+      (eco, (m, handle_mixer product m cur (getindexed (arg 2 op))) :: filter (fun q => negb (N.eqb (fst q) m)) mixers, therms)
+    | _ =>
+      let t := getN (arg 1 op) in
+      let cur := match find (fun q => N.eqb (fst q) t) therms with Some q => snd q | None => [] end in
+      (eco, mixers, (t, handle_thermostat t cur (getindexed (arg 2 op))) :: filter (fun q => negb (N.eqb (fst q) t)) therms)
+    end in
+  let '(eco, mixers, therms) := fold_left step (getL (arg 1 v)) ([], [], []) in
+  VL (map (vparam product) eco ++ flat_map (fun q => map (vparam product) (snd q)) mixers ++
+      flat_map (fun q => map (vparam product) (snd q)) therms).
